@@ -183,7 +183,7 @@ def cmdPrintLoop (hook : Hook α) : Nat → Bool → St α → List (Tok α) →
       | .ok (v, r1, s1) =>
         let s2 := match v with
           | .str x => if !s1.skipPunch then { s1 with prints := s1.prints.push (x ++ " ") } else s1
-          | .num x => { s1 with prints := s1.prints.push (BNum.fmt s1.hp x ++ " ") }
+          | .num x => { s1 with prints := s1.prints.push (BNum.fmt s1.hp x ++ " "), ub := s1.ub || BNum.isNaN x }
         cmdPrintLoop hook fuel false s2 r1
 
 def cmdPrint (hook : Hook α) (s : St α) (t : List (Tok α)) : Except Err (St α × List (Tok α)) :=
